@@ -7,7 +7,10 @@ oracle : the multi-path differential.  Generated template sets are run, in one w
          each through render, render_unicode, render_context, get_def(n).render() for every def, and (default
          options, string data) the mako-render command (in-process cmdline() and the real executable).  Outputs,
          `source`, `code` (modulo the lines listed in CODE_MAY_DIFFER), has_def/list_defs/get_def must agree between
-         all paths and all seeds.  A directory family gives every seed's worker lookups over 2-4 directories (absolute,
+         all paths and all seeds.  An in-place regeneration family (bytecode caching on) regenerates a module file in
+         the same second with the same size - a second root sharing the module directory, or the source edited - with
+         the default writer and three module_writer= variants: the regenerated module must be the one that executes.
+         A directory family gives every seed's worker lookups over 2-4 directories (absolute,
          relative, duplicate spellings) with shadowed URIs: get_template, include / inherit / namespace and mako-render
          with several --template-dir must serve "the first configured directory that contains it" (file, source, code,
          defs, output), under every hash seed.  A history family runs multi-step sequences in ONE process (load through a module
@@ -54,7 +57,7 @@ TRUSTED_EXTRA = [
     "PythonPrinter.writeline in the worker process) and its line parser",
     "C08: regex class \\W is the regenerated table Generated/Unicode.lean (probed from the running interpreter)",
 ]
-REGEN = ["Unicode", "Paths8"]
+REGEN = ["Unicode", "Paths8", "ModFile"]
 
 HERE = os.path.dirname(os.path.abspath(__file__))
 VERIF = os.path.dirname(os.path.dirname(HERE))
@@ -832,6 +835,121 @@ def run_cli_md(argv, real):
         sys.stdout, sys.stderr = so, se
 
 
+# ----- in-place regeneration of a module file (module_writer variants), bytecode caching enabled
+
+REGEN_TEXT = {"siteA": "Gr\u00fc\u00dfe from site A: ${x}\n<%def name='who()'>def of A</%def>",
+              "siteB": "Gr\u00fc\u00dfe from site B: ${x}\n<%def name='who()'>def of B</%def>",
+              "edit1": "edited text no. 1: ${x}|<%def name='who()'>def of 1</%def>",
+              "edit2": "edited text no. 2: ${x}|<%def name='who()'>def of 2</%def>"}
+WRITERS = ["default", "docs", "docs+utime", "fileobj"]
+
+
+def make_writer(kind, stamp):
+    if kind == "default":
+        return None
+
+    def docs_module_writer(source, outputpath):
+        # the example in the documentation of Template(module_writer=…)
+        (dest, name) = tempfile.mkstemp(dir=os.path.dirname(outputpath))
+        os.write(dest, source)
+        os.close(dest)
+        shutil.move(name, outputpath)
+        if kind == "docs+utime":
+            os.utime(outputpath, (stamp, stamp))          # a writer that stamps its output (reproducible builds)
+
+    def fileobj_writer(source, outputpath):
+        with open(outputpath, "wb") as f:
+            f.write(source)
+    return fileobj_writer if kind == "fileobj" else docs_module_writer
+
+
+def regen_attempt(work, kind, scenario):
+    """-> None (inconclusive: the two generations differ in whole-second mtime or size) | list of problems.
+    scenario 'roots': two roots, two lookups, one module directory; 'edit': one lookup, the source is edited"""
+    from mako.lookup import TemplateLookup
+    from mako.template import Template
+    mods = os.path.join(work, "mods")
+    now = time.time()
+    stamp = int(now) - 500
+    first, second = ("siteA", "siteB") if scenario == "roots" else ("edit1", "edit2")
+    d1 = os.path.join(work, first if scenario == "roots" else "site")
+    d2 = os.path.join(work, second if scenario == "roots" else "site")
+    for d in {d1, d2}:
+        os.makedirs(d)
+
+    def put(d, key, age):
+        fn = os.path.join(d, "index.html")
+        with open(fn, "w", encoding="utf-8") as f:
+            f.write(REGEN_TEXT[key])
+        os.utime(fn, (now - age, now - age))
+    put(d1, first, 2000)
+    kw = {"module_directory": mods}
+    w = make_writer(kind, stamp)
+    if w is not None:
+        kw["module_writer"] = w
+    la = TemplateLookup([d1], **kw)
+    lb = la if scenario == "edit" else TemplateLookup([d2], **kw)
+    modfile = os.path.join(mods, "index.html.py")
+    if kind != "docs+utime":
+        while time.time() % 1.0 > 0.3:            # start early in a second so that both generations fall into it
+            time.sleep(0.01)
+    ta = la.get_template("/index.html")
+    out_a = ta.render_unicode(x=1)
+    st_a = os.stat(modfile)
+    # roots: another old source file for the same URI; edit: the source is edited (strictly newer than the compile
+    # stamp of the loaded template, so the lookup reloads it and mako regenerates the module file)
+    put(d2, second, 1000 if scenario == "roots" else -5)
+    tb = lb.get_template("/index.html")
+    out_b = tb.render_unicode(x=1)
+    st_b = os.stat(modfile)
+    problems = []
+    want_a = Template(REGEN_TEXT[first]).render_unicode(x=1)
+    want_b = Template(REGEN_TEXT[second]).render_unicode(x=1)
+    if out_a != want_a:
+        problems.append(["first template output", want_a, out_a])
+    conclusive = int(st_a.st_mtime) == int(st_b.st_mtime) and st_a.st_size == st_b.st_size
+    if out_b != want_b:
+        problems.append(["render_unicode() of the template whose module file was regenerated in place", want_b, out_b])
+    who = outcome(lambda: tb.get_def("who").render_unicode(), work)
+    if who != ["ok", "def of " + second[-1].upper()] and who != ["ok", "def of " + second[-1]]:
+        problems.append(["get_def('who').render()", "def of " + second[-1], who])
+    if tb.source != REGEN_TEXT[second] or second[-1] + ": ')" not in tb.code.replace('"', "'"):
+        if tb.source != REGEN_TEXT[second]:
+            problems.append(["source", REGEN_TEXT[second], tb.source])
+    if tb.module._template_filename != os.path.join(d2, "index.html"):
+        problems.append(["the module that EXECUTES was generated from", os.path.join(d2, "index.html"), tb.module._template_filename])
+    tc = TemplateLookup([d2], module_directory=mods).get_template("/index.html")     # what a later lookup finds there
+    if tc.render_unicode(x=1) != want_b:
+        problems.append(["a later lookup over the same module directory renders", want_b, tc.render_unicode(x=1)])
+    if not problems and not conclusive:
+        return None
+    return [[p_[0], p_[1], canon_msg(str(p_[2]), work)] for p_ in problems]
+
+
+def worker_regen(root):
+    """every writer x scenario; bytecode writing is on, as in a normal interpreter"""
+    res = []
+    old = sys.dont_write_bytecode
+    sys.dont_write_bytecode = False
+    try:
+        n = 0
+        for kind in WRITERS:
+            for scenario in ("roots", "edit"):
+                got, tries = None, 0
+                while got is None and tries < (6 if kind == "docs+utime" else 4):
+                    tries += 1
+                    n += 1
+                    try:
+                        got = regen_attempt(os.path.join(root, "regen%d" % n), kind, scenario)
+                    except Exception as e:       # noqa: BLE001
+                        import traceback
+                        got = [["scenario raised", "no exception", "%s: %s" % (type(e).__name__, traceback.format_exc()[-600:])]]
+                res.append({"writer": kind, "scenario": scenario, "conclusive": got is not None, "tries": tries, "problems": got or []})
+    finally:
+        sys.dont_write_bytecode = old
+    return res
+
+
 def worker_main(jobfile):
     job = json.load(open(jobfile))
     sys.path.insert(0, job["repo"])
@@ -839,6 +957,8 @@ def worker_main(jobfile):
     assert os.path.realpath(os.path.dirname(os.path.dirname(mako.__file__))) == os.path.realpath(job["repo"]), mako.__file__
     import warnings
     warnings.simplefilter("ignore")
+    import mako.template, mako.lookup, mako.cmd, mako.runtime, mako.exceptions, mako.cache, mako.filters  # noqa: E401,F401
+    sys.dont_write_bytecode = False      # a normal interpreter caches the bytecode of the module files it imports
     out = []
     prev = {}
     if job["phase"] == "B":
@@ -863,8 +983,10 @@ def worker_main(jobfile):
             except Exception:       # noqa: BLE001
                 import traceback
                 md.append({"id": case["id"], "crash": traceback.format_exc()[-3000:], "obs": {}})
+    regen = worker_regen(job["root"]) if job["phase"] == "A" and job.get("regen") else []
     with open(job["out"], "w") as f:
-        json.dump({"seed": job["seed"], "hashseed_env": os.environ.get("PYTHONHASHSEED"), "results": out, "md": md}, f)
+        json.dump({"seed": job["seed"], "hashseed_env": os.environ.get("PYTHONHASHSEED"), "results": out, "md": md,
+                   "regen": regen}, f)
 
 
 if __name__ == "__main__" and len(sys.argv) == 3 and sys.argv[1] == "--worker":
@@ -886,18 +1008,17 @@ def unL(f):
     return [] if f == "[]" else [dec(x) for x in f.split("/")]
 
 
-def spawn(phase, seed, cases, root, prev=None, mdcases=None):
+def spawn(phase, seed, cases, root, prev=None, mdcases=None, regen=False):
     os.makedirs(root, exist_ok=True)
     jobfile = os.path.join(root, "job%s.json" % phase)
     out = os.path.join(root, "out%s.json" % phase)
     job = {"phase": phase, "root": root, "cases": cases, "repo": REPO, "seed": seed, "out": out, "prev": prev,
-           "mdcases": mdcases or []}
+           "mdcases": mdcases or [], "regen": regen}
     with open(jobfile, "w") as f:
         json.dump(job, f)
     env = dict(os.environ)
     env["PYTHONHASHSEED"] = str(seed)
     env["PYTHONPATH"] = REPO + os.pathsep + VERIF
-    env["PYTHONDONTWRITEBYTECODE"] = ""
     p = subprocess.Popen([sys.executable, os.path.abspath(__file__), "--worker", jobfile], env=env,
                          stdout=subprocess.PIPE, stderr=subprocess.PIPE)
     return p, out
@@ -906,11 +1027,14 @@ def spawn(phase, seed, cases, root, prev=None, mdcases=None):
 MD_OUT = {}      # seed -> multi-directory observations of the last run_seeds(…, mdcases=…) call
 
 
-def run_seeds(cases, seeds, base, tag="r", phase_b=True, mdcases=None):
+REGEN_OUT = {}   # seed -> in-place regeneration scenarios of the last run_seeds(…, regen=True) call
+
+
+def run_seeds(cases, seeds, base, tag="r", phase_b=True, mdcases=None, regen=False):
     """phase A for all seeds in parallel, then phase B (fresh processes).  -> {seed: (resultsA, resultsB)}"""
     procs = {}
     for s in seeds:
-        procs[s] = spawn("A", s, cases, os.path.join(base, "%s_seed_%s" % (tag, s)), mdcases=mdcases)
+        procs[s] = spawn("A", s, cases, os.path.join(base, "%s_seed_%s" % (tag, s)), mdcases=mdcases, regen=regen)
     outA = {}
     for s, (p, out) in procs.items():
         _, err = p.communicate(timeout=3000)
@@ -919,6 +1043,8 @@ def run_seeds(cases, seeds, base, tag="r", phase_b=True, mdcases=None):
         outA[s] = out
         if mdcases:
             MD_OUT[s] = json.load(open(out)).get("md", [])
+        if regen:
+            REGEN_OUT[s] = json.load(open(out)).get("regen", [])
     if not phase_b:
         return {s: (json.load(open(outA[s]))["results"], [{"id": c["id"], "diffs": [], "paths": []} for c in cases])
                 for s in seeds}
@@ -1154,7 +1280,8 @@ def oracle_differential(ctx, base):
     mdcases = [gen_mdcase(ctx.rng, i) for i in range(30 if quick else 300)]
     for c in mdcases[:: (6 if quick else 30)]:
         c["cli_real"] = True
-    res = run_seeds(cases, seeds, base, mdcases=mdcases)
+    res = run_seeds(cases, seeds, base, mdcases=mdcases, regen=True)
+    oracle_regen(ctx, seeds)
     try:
         oracle_multidir(ctx, mdcases, MD_OUT, seeds)
     except Exception as e:        # noqa: BLE001
@@ -1803,6 +1930,28 @@ def md_check(case, obs):
     return bad
 
 
+def oracle_regen(ctx, seeds):
+    """a module file regenerated in place (another root sharing the module directory / the source edited), with the
+    default writer and with module_writer= variants, bytecode caching on: the regenerated module must be the one that
+    executes - every observation equals the string path's"""
+    st = ctx.stream("oracle.regenerated_in_place", "oracle")
+    first = None
+    for s_ in seeds:
+        for r in REGEN_OUT.get(s_, []):
+            st["cases"] += 1
+            ctx.branch("regen:%s:%s:%s" % (r["writer"], r["scenario"], "conclusive" if r["conclusive"] else "inconclusive"))
+            if r["problems"] and (first is None or (r["writer"] == "docs+utime" and first[1]["writer"] != "docs+utime")):
+                first = (s_, r)
+    if first:
+        s_, r = first
+        what, want, got = r["problems"][0]
+        ctx.violation("module-dir-regenerated-module-not-executed",
+                      {"input": "module_writer=%s, scenario=%s" % (r["writer"], r["scenario"]), "regen": [r["writer"], r["scenario"]]},
+                      {"what": what, "expected": want, "got": got, "all": r["problems"][:6], "hashseed": s_}, "oracle.regenerated_in_place")
+    ctx.sample({"stream": "oracle.regenerated_in_place", "writers": WRITERS, "scenarios": ["roots", "edit"],
+                "checked": "output, get_def, source, executing module's _template_filename, a later lookup"})
+
+
 def oracle_multidir(ctx, cases, outs, seeds):
     """outs: {seed: md results}.  every seed must agree with the ground truth, hence with each other"""
     st = ctx.stream("oracle.directories", "oracle")
@@ -2062,7 +2211,7 @@ def run(ctx):
                     oracle_differential(ctx, base)
         ctx.notes.append({"code_may_differ_between_paths": CODE_MAY_DIFFER})
         for k in sorted(ctx.branches):
-            if k.startswith(("path:", "decl", "outcome:", "select:", "construct:")):
+            if k.startswith(("path:", "decl", "outcome:", "select:", "construct:", "regen:")):
                 ctx.log("  %-50s %d" % (k, ctx.branches[k]))
     finally:
         shutil.rmtree(base, ignore_errors=True)
@@ -2075,6 +2224,14 @@ def replay(ctx, data):
     print("replaying", json.dumps(case, ensure_ascii=False)[:1000])
     base = tempfile.mkdtemp(prefix="c08r_")
     try:
+        if isinstance(case, dict) and "regen" in case:
+            run_seeds([], ["0"], base, phase_b=False, regen=True)
+            ok = True
+            for r in REGEN_OUT["0"]:
+                for what, want, got in r["problems"]:
+                    ok = False
+                    print("module_writer=%s scenario=%s: %s: expected %r got %r" % (r["writer"], r["scenario"], what, want, got))
+            return ok
         if isinstance(case, dict) and "mdcase" in case:
             c = case["mdcase"]
             seeds = ["0", "1", "2", "3", "4", "5"]
